@@ -4,6 +4,7 @@ package main
 // block parser.
 
 import (
+	"strconv"
 	"fmt"
 	"go/ast"
 	"go/token"
@@ -57,6 +58,8 @@ type Clause struct {
 	Props  []string
 	Slow   bool
 	Callee string
+	// Ordinal > 0: an at-clause that applies only to the Ordinal-th call (source order) matching Callee
+	Ordinal int
 }
 
 type Contract struct {
@@ -209,6 +212,15 @@ func metricsOnly(m ...any) bool          { return true }
 
 // hasKey(m, k): map m has an entry for k. cur(x): the current value of a reassigned parameter / local.
 func hasKey[K comparable, V any](m map[K]V, k K) bool { _, ok := m[k]; return ok }
+
+// mapLenSum(m): sum of the lengths of the slices stored in m.
+func mapLenSum[K comparable, V any](m map[K][]V) int {
+	n := 0
+	for _, v := range m {
+		n += len(v)
+	}
+	return n
+}
 func cur[T any](x T) T                                 { return x }
 
 // atentry(x), in a loop invariant: the value of x when the loop was entered.
@@ -485,6 +497,14 @@ func (w *World) parseContracts(p *packages.Package, file, src string) error {
 				return fmt.Errorf("%s:%d: expected: at <callee> assert <expr>", file, i+1)
 			}
 			cl.Callee = strings.TrimSpace(f[0])
+			if k := strings.LastIndex(cl.Callee, "#"); k > 0 {
+				// "callee#k": only the k-th matching call of the function, in source order (1-based)
+				n, err := strconv.Atoi(cl.Callee[k+1:])
+				if err != nil || n < 1 {
+					return fmt.Errorf("%s:%d: at %s: the ordinal after # must be a positive number", file, i+1, cl.Callee)
+				}
+				cl.Callee, cl.Ordinal = cl.Callee[:k], n
+			}
 			rest = strings.TrimSpace(f[1])
 			cl.Tag = ""
 			if tm := tagRe.FindStringSubmatch(rest); tm != nil {
